@@ -13,6 +13,9 @@ REWRITES = [
   ('ov_newtype', 'BeartypeConf(hint_overrides=FrozenDict({NT: Union[int, str]}))', [(r'\bNT\b', 'Union[int, str]')]),
   ('ov_sub', 'BeartypeConf(hint_overrides=FrozenDict({list[str]: tuple[str, ...]}))', [(r'list\[str\]', 'tuple[str, ...]')]),
   ('ov_tower', 'BeartypeConf(is_pep484_tower=True, hint_overrides=FrozenDict({L0: L1}))', [(r'\bfloat\b', 'Union[float, int]'), (r'\bcomplex\b', 'Union[complex, float, int]'), (r'\bL0\b', 'L1')]),
+  # the tower together with an override that already spells out one of its own two entries: both readings of the property agree
+  ('tower_ovfloat', 'BeartypeConf(is_pep484_tower=True, hint_overrides=FrozenDict({float: Union[float, int]}))', [(r'\bfloat\b', 'Union[float, int]'), (r'\bcomplex\b', 'Union[complex, float, int]')]),
+  ('tower_ovcomplex', 'BeartypeConf(is_pep484_tower=True, hint_overrides=FrozenDict({complex: Union[complex, float, int]}))', [(r'\bfloat\b', 'Union[float, int]'), (r'\bcomplex\b', 'Union[complex, float, int]')]),
   ('viol_type', 'BeartypeConf(violation_type=ValueError)', []),
   ('viol_door_warn', 'BeartypeConf(violation_door_type=UserWarning, violation_param_type=UserWarning)', []),
 ]
@@ -125,8 +128,53 @@ def replay_c18(s, conf_src, s2, obj_src, r):
     if v1 != v2: return True, f'obj={obj_src} draw={r}: {s} under {conf_src} -> {v1}; hand-rewritten {s2} under default -> {v2}'
     return False, f'both {v1}'
 
+def sanify_tower(rep):
+    """(F) sanify_conf_kwargs_is_pep484_tower: on normal return the configuration's hint_overrides maps float and complex to the tower's
+    unions and every other key exactly as the user passed it; it raises only when the user overrides float / complex differently."""
+    from pyvc import funcmode, model as M, discharge, symx
+    from pyvc.symx import Exec, St, VObj, VPy, VBool
+    import collections.abc as cabc
+    import beartype._conf._confoverrides as mod
+    from beartype.roar import BeartypeConfParamException
+    fobj, node, _ = funcmode.load('beartype/_conf/_confoverrides.py', 'sanify_conf_kwargs_is_pep484_tower')
+    uni = M.Universe()
+    for c in (cabc.Mapping, dict, float, complex, BeartypeConfParamException): uni.const(c)
+    OLD = z3.Const('hint_overrides_in', M.Obj); T = z3.Const('TOWER', M.Obj); TF = z3.Const('tower_float', M.Obj); TC = z3.Const('tower_complex', M.Obj)
+    Fl, Cx = uni.const(float), uni.const(complex); k = z3.Const('k_', M.Obj); NONE = uni.const(None)
+    def m_tower(ex, s, f, a, kw, w): return [(s, VObj(T))]
+    ex = Exec(uni, dict(mod.__dict__), call_model={mod._hint_overrides_pep484_tower: m_tower}, name='sanify_tower'); ex.bitor_is_dict_union = True
+    s0, ref = ex.new_dict(St(), [('hint_overrides', VObj(OLD)), ('is_pep484_tower', VPy(True))])
+    tower_ax = [M.inst(T, uni.const(cabc.Mapping)), M.inst(OLD, uni.const(cabc.Mapping)), z3.ForAll([k], M.mem(T, k) == z3.Or(k == Fl, k == Cx)), M.mget(T, Fl) == TF, M.mget(T, Cx) == TC,
+                TF != NONE, TC != NONE, M.truthy(TF), M.truthy(TC), z3.ForAll([k], z3.Implies(M.mem(OLD, k), M.mget(OLD, k) != NONE)),
+                # == on hints: an object equals itself (the tower's unions are typing objects with a reflexive __eq__)
+                M.eq(TF, TF), M.eq(TC, TC)]
+    outs = ex.exec_block([st for st in node.body if not isinstance(st, ast.Assert) and not (isinstance(st, ast.Expr) and isinstance(st.value, ast.Constant))], s0.set('conf_kwargs', ref))
+    pr = discharge.Prover(uni.axioms() + tower_ax)
+    for ob in ex.obls:
+        r = pr.prove(list(ob.pc), ob.goal); rep.add(f'C18.sanify_tower.{ob.kind}#{ob.name.rsplit(".", 1)[-1]}', r.status, time=r.time, backend=r.backend, where=ob.where)
+    n = 0
+    for i, (kind, s_, v) in enumerate(list(outs) + [('raise', s2, v2) for s2, v2 in ex.raised]):
+        pc = list(s_.pc); n += 1
+        if kind == 'raise':
+            conflict = z3.Or(z3.And(M.mem(OLD, Fl), z3.Not(M.eq(M.mget(OLD, Fl), TF))), z3.And(M.mem(OLD, Cx), z3.Not(M.eq(M.mget(OLD, Cx), TC))))
+            ok = isinstance(v, symx.VExc) and v.cls is BeartypeConfParamException
+            r = pr.prove(pc, conflict)
+            rep.add(f'C18.sanify_tower.post.raises_only_on_conflict.path{i}', r.status if ok else 'refuted', time=r.time, backend=r.backend, where='BeartypeConfParamException only when the user overrides float / complex with something else')
+            continue
+        cur = dict(s_.hget(('dict', ref.rid), ())).get('hint_overrides')
+        if cur is None: rep.add(f'C18.sanify_tower.post.path{i}', 'refuted', backend='structural', where='hint_overrides entry missing'); continue
+        NEW = ex.obj(cur)
+        goal = z3.And(M.mem(NEW, Fl), M.mget(NEW, Fl) == TF, M.mem(NEW, Cx), M.mget(NEW, Cx) == TC,
+                      z3.ForAll([k], z3.Implies(z3.And(k != Fl, k != Cx), z3.And(M.mem(NEW, k) == M.mem(OLD, k), z3.Implies(M.mem(OLD, k), M.mget(NEW, k) == M.mget(OLD, k))))))
+        r = pr.prove(pc, goal)
+        rep.add(f'C18.sanify_tower.post.tower_entries_installed_others_kept.path{i}', r.status, time=r.time, backend=r.backend, reason=r.reason,
+                where='after sanification hint_overrides maps float -> float | int and complex -> complex | float | int and leaves every other override as passed')
+    if not n: rep.error('C18.sanify_tower: no path')
+
 def main(tier, seed):
     rep = report.Report('C18', tier, seed, 'proof', f'./check C18 --tier {tier}')
+    try: sanify_tower(rep)
+    except Exception: rep.error('C18 sanify_tower: ' + traceback.format_exc()[-2000:])
     T = tasks(tier, seed)
     with mp.get_context('fork').Pool(int(os.environ.get('VERIF_PROCS', '16')), maxtasksperchild=30) as pool:
         recs = pool.map(_worker, T, chunksize=2)
